@@ -359,8 +359,15 @@ impl App {
                 StreamEvent::Opened { dir } => {
                     self.hist(|| format!("Opened({dir:?})"));
                     let mut any = false;
+                    let mut accepted = 0u64;
                     while let Some(id) = conn.streams().accept(dir) {
                         any = true;
+                        accepted += 1;
+                        if accepted > 100_000 {
+                            // no configuration used here allows this many streams at once
+                            led.violate("C03", format!("pair {:x}: accept({dir:?}) handed out more than 100000 streams after one Opened event (last {id})", self.pair));
+                            break;
+                        }
                         led.cnt.inc("app.accepted");
                         if id.initiator() == self.side {
                             led.violate("C11", format!("accept() returned locally-initiated {id}"));
